@@ -309,7 +309,36 @@ def check_transient(case, r: R):
     r.rejected = first_rejected
 
 
+def check_step_helper(case, r: R):
+    """the library's own generator of step waveforms (the inputs of its transient examples): step(t, t0, X0, X1) is the
+    level X0 before t0 and the level X1 after it"""
+    from CircuitCalculator.SignalProcessing.one_sided_functions import step
+    t = np.array(case['t'], dtype=float)
+    t0, X0, X1 = case['t0'], case['X0'], case['X1']
+    r.nt(X0 != 0 and X1 != X0 and (t < t0).any() and (t > t0).any())
+    r.cls('X0=0' if X0 == 0 else 'X0!=0', 'defaults' if case['defaults'] else 'explicit-levels')
+    with r.lib('step'):
+        y = np.asarray(step(t, t0) if case['defaults'] else step(t, t0, X0, X1), dtype=float)
+        lo, hi = (0.0, 1.0) if case['defaults'] else (X0, X1)
+        if y.shape != t.shape:
+            return r.fail('step-shape', f'{y.shape} for {t.shape}')
+        for tk, yk in zip(t, y):
+            want = (lo, hi) if tk == t0 else ((lo,) if tk < t0 else (hi,))
+            if not any(yk == w_ for w_ in want):
+                r.fail('step-level', f'step({tk}, t0={t0}, X0={lo}, X1={hi}) = {yk}')
+                break
+
+
+@st.composite
+def step_case(draw):
+    t0 = draw(st.sampled_from([0.0, 1e-3, 0.5, -1.0, 2.0]))
+    ts = draw(st.lists(st.one_of(st.floats(-3, 3, allow_nan=False), st.just(t0)), min_size=2, max_size=8))
+    lv = st.sampled_from([0.0, 1.0, -1.0, 2.0, 3.0, -5.0, 0.5, 33.0])
+    return {'t': sorted(ts), 't0': t0, 'X0': draw(lv), 'X1': draw(lv), 'defaults': draw(st.sampled_from([False, False, False, True]))}
+
+
 TESTS = [
     Test('transient', check_transient, strategy=transient_case, quick=2500, thorough=20000),
+    Test('step-helper', check_step_helper, strategy=step_case, quick=500, thorough=5000),
     Test('settling', check_settling, strategy=settling_case, quick=1000, thorough=8000),
 ]
